@@ -97,14 +97,19 @@ func vC06PrintParse(fam int, kinds int, cap int) {
 	vObserve("len", len(s))
 }
 
-//verif:harness prop=C06 quick=6 thorough=11
-//verif:bounds print->parse: constructor-built locations, every partial combination; quick: atoms with coordinates in [0,999], 2-part families 1..5 with coordinates in [0,8] (one digit); thorough: atoms in [0,99999], 2-part families in [0,99], 3-part families 6..10 in [0,8]; String() via the decimal-digit model, AsLocation via the real pars parser
+//verif:harness prop=C06 quick=8 thorough=14 merge=concrete
+//verif:bounds print->parse: constructor-built locations, every partial combination; quick: atoms with coordinates in [0,999], 2-part families 1..5 and the nested families 16,17 (complement of a join inside a join; ranged/point parts) with coordinates in [0,8] (one digit); thorough: atoms in [0,99999], 2-part families in [0,99], 3-part families 6..10 and nested 16..18 in [0,8]; String() via the decimal-digit model, AsLocation via the real pars parser
 func VH_C06_print_parse() {
-	n := vFamS1
+	n := vFamS1 + 2
+	base := vFamS1
 	if vTier() == 1 {
-		n = vFamS2
+		n, base = vFamS2+3, vFamS2
 	}
 	fam := vShard(n)
+	if fam >= base {
+		vC06PrintParse(fam-base+16, 2, 8)
+		return
+	}
 	cap := 8
 	switch {
 	case fam == 0 || fam == 3:
